@@ -128,7 +128,7 @@ impl DebugSession {
         }
     }
 
-    fn next_seq(&mut self) -> i64 {
+    fn next_seq(&self) -> i64 {
         self.server_seq
             .fetch_add(1, std::sync::atomic::Ordering::Relaxed)
     }
@@ -455,6 +455,11 @@ impl DebugSession {
         message: Option<String>,
         body: Option<Value>,
     ) -> anyhow::Result<()> {
+        // The sequence number is allocated while the transport lock is held, so that the order of
+        // sequence numbers is the order of messages on the wire (forwarder threads share the counter).
+        #[cfg(bs_verif)]
+        crate::verif::sched_point("sess.seq_taken");
+        let mut lock = self.io.lock().unwrap();
         let rsp = DapResponse {
             seq: self.next_seq(),
             r#type: "response",
@@ -465,10 +470,6 @@ impl DebugSession {
             body,
         };
         let value = serde_json::to_value(rsp)?;
-
-        #[cfg(bs_verif)]
-        crate::verif::sched_point("sess.seq_taken");
-        let mut lock = self.io.lock().unwrap();
         lock.write_message(&value)
     }
 
@@ -482,10 +483,10 @@ impl DebugSession {
     }
 
     fn send_event_raw(&mut self, name: &'static str, body: Option<Value>) -> anyhow::Result<()> {
-        let seq = self.next_seq();
         #[cfg(bs_verif)]
         crate::verif::sched_point("sess.seq_taken");
         let mut lock = self.io.lock().unwrap();
+        let seq = self.next_seq();
 
         protocol::send_event(seq, &mut *lock, name, body)
     }
@@ -547,12 +548,11 @@ impl DebugSession {
                 match reader.read_line(&mut buf) {
                     Ok(0) => break,
                     Ok(_) => {
-                        let s = seq.fetch_add(1, std::sync::atomic::Ordering::Relaxed);
-
                         #[cfg(bs_verif)]
                         crate::verif::sched_point("fout.seq_taken");
                         {
                             let mut lock = io.lock().unwrap();
+                            let s = seq.fetch_add(1, std::sync::atomic::Ordering::Relaxed);
                             // TODO log it somehow
                             _ = protocol::send_event(
                                 s,
@@ -578,12 +578,11 @@ impl DebugSession {
                 match reader.read_line(&mut buf) {
                     Ok(0) => break,
                     Ok(_) => {
-                        let s = seq.fetch_add(1, std::sync::atomic::Ordering::Relaxed);
-
                         #[cfg(bs_verif)]
                         crate::verif::sched_point("ferr.seq_taken");
                         {
                             let mut lock = io.lock().unwrap();
+                            let s = seq.fetch_add(1, std::sync::atomic::Ordering::Relaxed);
                             // TODO log it somehow
                             _ = protocol::send_event(
                                 s,
